@@ -71,14 +71,14 @@ type harnessReport struct {
 }
 
 type replayCase struct {
-	ID      string                   `json:"id"`
-	Harness string                   `json:"harness"`
-	Vector  map[string][]interface{} `json:"vector"`
-	Tier    int                      `json:"tier"`
-	Params  map[string]int           `json:"params"`
-	Repeat   int                     `json:"repeat"`
-	WantKind string                  `json:"want_kind"`
-	WantMsg  string                  `json:"want_msg"`
+	ID       string                   `json:"id"`
+	Harness  string                   `json:"harness"`
+	Vector   map[string][]interface{} `json:"vector"`
+	Tier     int                      `json:"tier"`
+	Params   map[string]int           `json:"params"`
+	Repeat   int                      `json:"repeat"`
+	WantKind string                   `json:"want_kind"`
+	WantMsg  string                   `json:"want_msg"`
 }
 
 type replayEvent struct{ Kind, Msg string }
